@@ -314,7 +314,7 @@ def _check_cross(repo, r3):
     # 3. Pi2Lev case split ends with else: raise
     chain_ok = False
     for st in ast.walk(enc.node):
-        if isinstance(st, ast.If) and "len(database[keyword])" in unparse(st.test) and "<=" in unparse(st.test):
+        if isinstance(st, ast.If) and "len(database[keyword])" in itext(enc, st.test) and "<=" in itext(enc, st.test):
             cur = st
             depth = 0
             while isinstance(cur, ast.If) and len(cur.orelse) == 1 and isinstance(cur.orelse[0], ast.If):
